@@ -490,8 +490,8 @@ class CompositeFrontend(ConstrainedFrontend):
             for o in others:
                 o._owned_solvers.discard(s)
 
-            for v in s.variables:
-                merged._solvers[v] = s
+            # (through _store_child: a child nobody has checked yet still has to be)
+            merged._store_child(s)
 
         noncommon_solvers = [[s for s in cs._solver_list if id(s) not in common_ids] for cs in [self, *others]]
 
